@@ -168,10 +168,16 @@ def mime(
     # Compute full-batch gradient at server params on train data.
     grads_batch_clients = [(cid, cds.padded_batch(grads_batch_hparams), crng)
                            for cid, cds, crng in clients]
-    grads_sum_total, num_sum_total = tree_util.tree_sum(
+    grads_and_num_sum = tree_util.tree_sum(
         (co for _, co in grads_for_each_client(server_state.params,
                                                grads_batch_clients)))
-    server_grads = tree_util.tree_inverse_weight(grads_sum_total, num_sum_total)
+    if grads_and_num_sum is None:
+      # No clients in this round: the full-batch gradient is zero.
+      server_grads = tree_util.tree_zeros_like(server_state.params)
+    else:
+      grads_sum_total, num_sum_total = grads_and_num_sum
+      server_grads = tree_util.tree_inverse_weight(grads_sum_total,
+                                                   num_sum_total)
     # Control variant corrected training across clients.
     client_diagnostics = {}
     client_num_examples = {cid: len(cds) for cid, cds, _ in clients}
